@@ -24,6 +24,23 @@ def ctor(crate):
     return mir.inline_view(crate, bs[0], keep=("cost", "class_nf", "lookup", "usages", "enodes", "ids"))
 
 
+def _class_not_final(r):
+    """`match eg.lookup(&x) { Some(i) => map.contains_key(&i.id), None => false }`: false unless the node's class is final"""
+    r = strip_role(r) if r is not None else None
+    if not (isinstance(r, tuple) and r[0] == "phi"):
+        return False
+    ok = False
+    for m_ in r[1]:
+        m_ = strip_role(m_)
+        if m_ == ("const", "false"):
+            continue
+        if isinstance(m_, tuple) and m_[0] == "call" and m_[1] == "contains_key" and role_mentions_call(m_, "lookup"):
+            ok = True
+            continue
+        return False
+    return ok
+
+
 @rule("X0", doc="candidate generation is exhaustive")
 def x0(ctx):
     crate = ctx.lib()
@@ -69,6 +86,8 @@ def x0(ctx):
             elif kind == "false" and txt.startswith("unwrap_or(map(lookup("):
                 allowed += 1
             elif kind == "false" and txt.startswith("contains_key("):
+                allowed += 1
+            elif kind == "false" and _class_not_final(cond_role.get(txt)):
                 allowed += 1
             else:
                 ctx.bad("push-extra-guard:%d:%s" % (i, txt[:40]), "heap push #%d in Extractor::new is additionally guarded by %s %s — candidates can be dropped" % (i, kind, txt), where_of(b, c.bb))
@@ -210,7 +229,7 @@ def x5(ctx):
         ctx.check(ok, "fresh-filling-renaming", "the stored node is renamed with apply_slotmap_fresh",
                   "Extractor::extract renames the stored node with %s although stored nodes (class_nf) can carry redundant slots the invocation does not cover: panics with 'index missing' instead of using a brand-new slot" % c.callee.name, where_of(b, c.bb))
     # recursion: children extracted from the renamed node's own children, in order
-    rec = [c for c in b.calls if c.callee and c.callee.target == b.id]
+    rec = [c for c in b.all_calls() if c.callee and c.callee.target == b.id]
     ctx.check(len(rec) >= 1, "recurses-on-children", "extract recurses on the children of the renamed node", "extract no longer recurses on the node's children", where_of(b))
     gb = crate.method("extract::Extractor", "get_best_cost")
     if gb:
